@@ -176,10 +176,73 @@ def cosim_throttle(rp, tr: tracer.Tracer, rng: random.Random) -> Any:
     return rp._replace(s=sim2)
 
 
+def cosim_move(rp, tr: tracer.Tracer, rng: random.Random) -> Any:
+    """a co-simulation user pushes a copy of a station / base with a "corrected" position through the SAFE entity API
+    (runner_payload_ops.modify_entities_safe).  Stations and bases never move: the call must be refused; whatever it
+    returns is what the user carries on with."""
+    from dataclasses import replace
+
+    from returns.result import Failure
+
+    from nrel.hive.runner import runner_payload_ops
+
+    sim = rp.s
+    pool = [sim.stations[k] for k in sorted(sim.stations.keys())] + [sim.bases[k] for k in sorted(sim.bases.keys())]
+    others = sorted({e.geoid for e in pool} | {v.geoid for v in sim.get_vehicles()})
+    ent = rng.choice(pool)
+    dest = [g for g in others if g != ent.geoid]
+    if not dest:
+        return rp
+    pos = sim.road_network.position_from_geoid(rng.choice(dest))
+    if pos is None:
+        return rp
+    res = runner_payload_ops.modify_entities_safe(rp, (replace(ent, position=pos),))
+    if isinstance(res, Failure):
+        return rp
+    rp2 = res.unwrap()
+    tr.write({"ev": "cosim", "what": "modify_entities_safe(moved copy)", "entity": ent.id, "d": tr.proj.advance(rp2.s, rp2.e), "rep": []})
+    return rp2
+
+
+def cosim_membership(rp, tr: tracer.Tracer, rng: random.Random) -> Any:
+    """a co-simulation user re-assigns a station or base to other fleets between steps (set_membership + modify_entity)"""
+    from nrel.hive.state.simulation_state import simulation_state_ops
+
+    sim = rp.s
+    fleets = sorted(rp.e.fleet_ids)
+    if not fleets:
+        return rp
+    pool = [sim.stations[k] for k in sorted(sim.stations.keys())] + [sim.bases[k] for k in sorted(sim.bases.keys())]
+    ent = rng.choice(pool)
+    new = rng.choice([(), (fleets[0],), (fleets[-1],), tuple(fleets)])
+    # mostly: the destination of a vehicle that is on its way, handed to a fleet that vehicle does not belong to
+    under_way = []
+    for v in sim.get_vehicles():
+        st = v.vehicle_state
+        tgt = getattr(st, "station_id", None) if type(st).__name__ == "DispatchStation" else (
+            getattr(st, "base_id", None) if type(st).__name__ == "DispatchBase" else None)
+        e = sim.stations.get(tgt) or sim.bases.get(tgt) if tgt else None
+        if e is not None:
+            deny = [f for f in fleets if f not in v.membership.memberships]
+            if deny:
+                under_way.append((e, (deny[0],)))
+    if under_way and rng.random() < 0.75:
+        ent, new = rng.choice(under_way)
+    try:
+        sim2 = simulation_state_ops.modify_entity(sim, ent.set_membership(new))
+    except Exception:
+        return rp
+    tr.write({"ev": "cosim", "what": "set_membership", "entity": ent.id, "fleets": list(new), "d": tr.proj.advance(sim2, rp.e), "rep": []})
+    return rp._replace(s=sim2)
+
+
+COSIM = {"throttle": cosim_throttle, "move": cosim_move, "membership": cosim_membership}
+
+
 def run_adv(seed: int, work: Path, trace_path: Path, *, steps: int = 40, mix: Optional[str] = None,
             with_route: bool = True, with_index: bool = False, world_kwargs: Optional[Dict[str, Any]] = None,
             write_outputs: bool = False, kinds: Optional[List[str]] = None, p_instr: Optional[float] = None,
-            throttle: bool = False) -> Tuple[Any, tracer.Tracer, Dict[str, Any]]:
+            throttle: bool = False, cosim: Optional[List[str]] = None) -> Tuple[Any, tracer.Tracer, Dict[str, Any]]:
     """one generated world driven by adversarial generators around (or instead of) the built-in ones"""
     rng = random.Random(seed)
     w = adv.gen_world(rng, n_steps=steps, **(world_kwargs or {}))
@@ -202,14 +265,16 @@ def run_adv(seed: int, work: Path, trace_path: Path, *, steps: int = 40, mix: Op
             gens.extend(builtin_generators(rp.e, emit))
     rp = set_generators(rp, gens)
     extra = {"builtin": all(p == "builtin" for p in parts), "scenario": f"adv{seed}", "mix": mix}
-    if throttle:
+    acts = list(cosim or []) + (["throttle"] if throttle else [])
+    if acts:
+        # a co-simulation user acts on the payload between calls of crank
         done = 0
         while done < steps:
             n = min(steps - done, rng.randint(3, 8))
             rp = crank_traced(rp, n, tr, extra)
             done += n
             if done < steps:
-                rp = cosim_throttle(rp, tr, rng)
+                rp = COSIM[rng.choice(acts)](rp, tr, rng)
     else:
         rp = crank_traced(rp, steps, tr, extra)
     tr.close()
